@@ -31,6 +31,11 @@ type c19Scn struct {
 	// Orders are map-order seeds: 0 sorted, 1 reversed, otherwise a seeded permutation per
 	// iteration.
 	Orders []uint64 `json:"orders,omitempty"`
+	// Before (parse kind): sources parsed, in order, before Src in the same process; the result for
+	// Src must not depend on them
+	Before []string `json:"before,omitempty"`
+	// Rounds (exec kind) > 1: every Interpreter is reused for that many executions
+	Rounds int `json:"rounds,omitempty"`
 	// exec
 	Inputs  []core.Bytes `json:"inputs,omitempty"`  // one stdin per interpreter
 	Quanta  []int        `json:"quanta,omitempty"`  // scheduler tape: steps per turn
@@ -269,6 +274,18 @@ END { print m + 0, length(r); printf "%s %d %5.1f %x\n", "fmt", 42, 3.14159, 255
 END { n = asorted(a); print n } function asorted(arr,   k, c) { for (k in arr) c++; return c }`,
 }
 
+// c19BrokenSources are sources that fail early, while the parser holds pending state.
+var c19BrokenSources = []string{
+	"BEGIN { print (1, 2) * }",
+	"BEGIN { x = (1, 2",
+	"function f(a, a) { }",
+	"BEGIN { (a, b) ; print > }",
+	"{ print (1, 2) (3, 4) > \"x\" ; getline < }",
+	"function g( { }\nBEGIN { g(1, 2) }",
+	"BEGIN { f(x) } function f(a) { a[1] } BEGIN { x = 1 }",
+	"BEGIN { \"unterminated }",
+}
+
 // c19ShellProgram shells out through the default shell command (race layer and scheduler).
 const c19ShellProgram = `BEGIN { n = 3 }
 { cmd = "echo got-" $1 "-" NR; cmd | getline line; close(cmd); print line; if (NR <= n) { r = system("exit " NR); print "sys", r } }
@@ -321,6 +338,15 @@ func (c19Engine) Gen(r *core.Rand, tier string, i int) any {
 		} else {
 			sc.Src = c19GenSource(r, nerr, sc.Native)
 		}
+		if r.Chance(1, 5) {
+			for k := r.Range(1, 3); k > 0; k-- {
+				if r.Chance(2, 3) {
+					sc.Before = append(sc.Before, core.Pick(r, c19BrokenSources))
+				} else {
+					sc.Before = append(sc.Before, c19GenSource(r, r.Range(1, 3), sc.Native))
+				}
+			}
+		}
 		sc.Orders = []uint64{0, 1}
 		n := 6
 		if tier == "thorough" {
@@ -344,6 +370,9 @@ func (c19Engine) Gen(r *core.Rand, tier string, i int) any {
 		fallthrough
 	default:
 		sc.Src = core.Pick(r, c19ExecPrograms)
+	}
+	if r.Chance(1, 3) {
+		sc.Rounds = r.Range(2, 3)
 	}
 	n := r.Range(2, 6)
 	lines := []string{"abc start\n", "b,c d\n", "xx stop\n", "caab 7\n", "hello world\n", "aaa\n", "\n", "1 2 3\n"}
@@ -447,6 +476,17 @@ func (e c19Engine) Run(scAny any, keep bool) core.Outcome {
 	verdicts := map[string]bool{}
 	for i, ord := range sc.Orders {
 		log := core.NewLog(keep)
+		if i == 0 {
+			for _, b := range sc.Before {
+				br, _ := c19ParseOnce(b, sc.Native, 0)
+				if br.Panic != "" {
+					out.One(1, true)
+					out.Fail = &core.Failure{Oracle: "panic", Detail: fmt.Sprintf("parsing panicked: %s\nsource:\n%s", br.Panic, b)}
+					return out
+				}
+				out.Probe("history_parses_before_the_checked_parse", 1)
+			}
+		}
 		res, permuted := c19ParseOnce(sc.Src, sc.Native, ord)
 		log.Addf("order %d ok=%v err=%q panic=%q str=%x disasm=%x", ord, res.OK, res.Err, res.Panic, core.HashString(res.Str), core.HashString(res.Disasm))
 		out.One(core.Mix(log.Hash(), ord), permuted > 0)
@@ -653,6 +693,9 @@ func c19Config(sc *c19Scn, in []byte, sink *core.SimSink) *interp.Config {
 
 func c19RunExec(sc *c19Scn, keep bool) core.Outcome {
 	var out core.Outcome
+	// One P: the scheduler runs one goroutine at a time anyway, and per-P runtime state
+	// (sync.Pool caches) then no longer depends on which thread picks a goroutine up.
+	defer runtime.GOMAXPROCS(runtime.GOMAXPROCS(1))
 	log := core.NewLog(keep)
 	pr, _ := c19ParseOnce(sc.Src, sc.Native, 0)
 	if !pr.OK {
@@ -696,9 +739,24 @@ func c19RunExec(sc *c19Scn, keep bool) core.Outcome {
 			core.Fatal("C19: New: %v", err)
 		}
 		cfg := c19Config(sc, sc.Inputs[i], a.out)
+		rounds := sc.Rounds
+		if rounds < 1 {
+			rounds = 1
+		}
+		in := sc.Inputs[i]
 		go func() {
 			<-a.resume
-			a.res = guarded(func() (int, error) { return it.Execute(cfg) })
+			for k := 0; k < rounds; k++ {
+				if k > 0 {
+					it.ResetVars()
+					it.ResetRand()
+					cfg.Stdin = bytes.NewReader(in)
+				}
+				a.res = guarded(func() (int, error) { return it.Execute(cfg) })
+				if a.res.Panic != "" || a.res.Err != nil {
+					break
+				}
+			}
 			a.done = true
 			events <- a
 		}()
@@ -746,6 +804,9 @@ func c19RunExec(sc *c19Scn, keep bool) core.Outcome {
 	}
 	for i, a := range actors {
 		got := c19ExecOut{a.out.String(), a.res.Status, a.res.errString(), a.res.Panic}
+		if sc.Rounds > 1 && want[i].Err == "" && want[i].Panic == "" {
+			want[i].Stdout = strings.Repeat(want[i].Stdout, sc.Rounds)
+		}
 		log.Addf("actor %d status=%d err=%q out=%x", i, got.Status, got.Err, core.HashString(got.Stdout))
 		out.SimTime += int64(a.steps)
 		if fail == nil && got != want[i] {
@@ -807,10 +868,19 @@ func c19RunThreads(sc *c19Scn, keep bool) core.Outcome {
 		wg.Add(1)
 		go func() {
 			defer wg.Done()
+			var reused *interp.Interpreter // odd goroutines reuse one Interpreter for all their executions
 			for rep := 0; rep < sc.Reps; rep++ {
 				i := (t + rep) % len(sc.Inputs)
 				sink := core.NewSimSink("out", nil)
 				it, _ := interp.New(prog)
+				if t%2 == 1 {
+					if reused == nil {
+						reused = it
+					}
+					it = reused
+					it.ResetVars()
+					it.ResetRand()
+				}
 				r := guarded(func() (int, error) { return it.Execute(c19Config(sc, sc.Inputs[i], sink)) })
 				got := c19ExecOut{sink.String(), r.Status, r.errString(), r.Panic}
 				if got != want[i] {
@@ -903,6 +973,13 @@ func (c19Engine) Shrink(scAny any) []any {
 				c.Src = strings.Join(nl, "\n")
 			})
 		}
+	}
+	for i := range sc.Before {
+		i := i
+		add(func(c *c19Scn) { c.Before = append(append([]string(nil), sc.Before[:i]...), sc.Before[i+1:]...) })
+	}
+	if sc.Rounds > 1 {
+		add(func(c *c19Scn) { c.Rounds = sc.Rounds - 1 })
 	}
 	if sc.Kind == "parse" {
 		if len(sc.Orders) > 2 {
